@@ -63,12 +63,15 @@ def generate(tier, seed, shard, nshards):
             lo = rng.randint(0, 3)
             c = GC.make_component(rng, ctor, ids[j], a, b, (lo, lo + 2), None, lossy=0.5)
             classes.append(edge_values(rng, c))
+            if circdesc.is_periodic(c) and rng.random() < 0.3:
+                c['args']['w'] = 2 * math.pi * 10 ** rng.uniform(8, 11.5)      # radio-frequency fundamentals: n*w0 is far beyond 2**53 * resolution
+                c['fast'] = True
             comps.append(c)
         rng.shuffle(comps)
         has_ground = rng.random() < 0.6
         if has_ground:
             comps.insert(rng.randrange(len(comps) + 1), {'ctor': 'ground', 'id': ids[n], 'nodes': [rng.choice([x for c in comps for x in c['nodes']])], 'args': {}})
-        w_res = rng.choice([1e-3, 1e-3, 1e-6, 0.5])
+        w_res = rng.choice([1e-3, 1e-3, 1e-6, 0.5, 0.0])
         ws = [('zero', 0.0), ('random', 10 ** rng.uniform(-1, 4))]
         for c in comps:
             f = circdesc.source_frequency(c)
@@ -78,11 +81,14 @@ def generate(tier, seed, shard, nshards):
                     ws += [('inside', f - 0.9 * w_res), ('outside', f - 1.1 * w_res)]
             if circdesc.is_periodic(c):
                 w0 = c['args']['w']
-                nh = rng.choice([1, 2, 3, 5, 8, 21])
+                nh = rng.choice([1, 2, 3, 5, 8, 21]) if not c.get('fast') else rng.randint(1, 400)
                 ws += [('harmonic', nh * w0), ('harmonic-inside', nh * w0 + 0.9 * w_res), ('between-harmonics', (nh + 0.5) * w0)]
+                if c.get('fast') or w_res == 0.0:
+                    ws.append(('harmonic-exact', rng.randint(1, 400) * w0))
                 if w_res < 0.4 * w0:
                     ws += [('harmonic-outside', nh * w0 + 1.1 * w_res)]
         rng.shuffle(ws)
+        ws.sort(key=lambda x: x[0] != 'harmonic-exact')          # these survive the cut to four frequencies
         yield {'circuit': {'components': comps}, 'ws': ws[:4], 'w_res': w_res, 'classes': classes}
 
 
@@ -158,9 +164,10 @@ def on_gating_boundary(c, w, w_res):
     if circdesc.is_periodic(c):
         w0 = c['args']['w']
         f = round(w / w0) * w0
-    if f is None:
-        return False
-    return abs(abs(w - f) - w_res) <= 1e-9 * max(abs(w), abs(f), 1.0)
+    if f is None or w == f:
+        return False                       # the analysed frequency IS the float the harmonic has: distance exactly 0
+    # the distance |w - f| is known up to the spacing of the floats around w (f itself is n*w0 rounded once)
+    return abs(abs(w - f) - w_res) <= 4 * math.ulp(max(abs(w), abs(f)))
 
 
 def _nan_equal(n1, n2):
